@@ -28,12 +28,16 @@ enum Prefixing {
     Default,
     /// the start file's default namespace is the IMPORTED namespace; unprefixed names denote B
     DefaultIsImported,
+    /// each namespace is bound to the prefix that spells the OTHER namespace's generated
+    /// abbreviation (alpha -> `alp`, beta -> `bet`): xmlns:bet="…/alpha" xmlns:alp="…/beta"
+    SwappedAbbreviations,
 }
 
-fn build(kind: Kind, target_b: bool, prefixing: Prefixing, user_first: bool, decoys: bool) -> SchemaSet {
+fn build(kind: Kind, target_b: bool, prefixing: Prefixing, user_first: bool, decoys: bool, same_name_chain: bool, elem_first: bool, idiom: bool) -> SchemaSet {
     let mut s = s0();
     let (pa, pb): (Vec<(String, String)>, Vec<(String, String)>) = match prefixing {
         Prefixing::TnsClash => (vec![("tns".into(), NS_A.into()), ("b".into(), NS_B.into())], vec![("tns".into(), NS_B.into())]),
+        Prefixing::SwappedAbbreviations => (vec![("bet".into(), NS_A.into()), ("alp".into(), NS_B.into())], vec![("alp".into(), NS_B.into())]),
         _ => (vec![("a".into(), NS_A.into()), ("b".into(), NS_B.into())], vec![("b".into(), NS_B.into())]),
     };
     s.files[0].prefixes = pa;
@@ -48,17 +52,29 @@ fn build(kind: Kind, target_b: bool, prefixing: Prefixing, user_first: bool, dec
     s.files[0].comps.clear();
     s.files[1].comps.clear();
     // carriers of the name `Thing`
-    let type_a = complex("Thing", vec![el("MarkTypeA", TypeRef::b("string"))]);
+    // with `same_name_chain`, A's carriers are themselves built on B's carriers of the SAME local name
+    let type_a = if same_name_chain {
+        Comp::Complex(ComplexType { name: "Thing".into(), base: Some(QName::new(NS_B, "Thing")), seq: Some(Seq::of(vec![el("MarkTypeA", TypeRef::b("string"))])), ..Default::default() })
+    } else {
+        complex("Thing", vec![el("MarkTypeA", TypeRef::b("string"))])
+    };
     // B's Thing has a member typed by B's own `Part`; A declares a `Part` as well
     let type_b = complex("Thing", vec![el("MarkTypeB", TypeRef::b("string")), el("MarkTypeB2", TypeRef::b("int")), el("UsesPart", TypeRef::n(NS_B, "Part"))]);
     let part_a = complex("Part", vec![el("MarkPartA", TypeRef::b("string"))]);
     let part_b = complex("Part", vec![el("MarkPartB", TypeRef::b("long"))]);
-    let elem_a = anon_element("Thing", vec![el("MarkElemA", TypeRef::b("string"))]);
+    // `idiom`: the element is an instance of the type of the same name (element name="Thing" type="a:Thing")
+    let elem_a = if idiom {
+        typed_element("Thing", TypeRef::n(NS_A, "Thing"))
+    } else if same_name_chain {
+        anon_element("Thing", vec![el("MarkElemA", TypeRef::b("string")), Particle::Ref(ElemRef { target: QName::new(NS_B, "Thing"), min: 0, max: Max::N(1) })])
+    } else {
+        anon_element("Thing", vec![el("MarkElemA", TypeRef::b("string"))])
+    };
     let elem_b = anon_element("Thing", vec![el("MarkElemB", TypeRef::b("string"))]);
     let decoy = Comp::Complex(ComplexType {
         name: "Decoy".into(),
         seq: Some(Seq::of(vec![el("Thing", TypeRef::b("int"))])),
-        attrs: vec![Attr { name: "Thing".into(), ty: TypeRef::b("boolean"), required: false }],
+        attrs: vec![Attr { name: "Thing".into(), ty: TypeRef::b("boolean"), required: false, value_constraint: None }],
         ..Default::default()
     });
     // B uses its own Thing through its own prefix (tns in the clash situation)
@@ -78,11 +94,13 @@ fn build(kind: Kind, target_b: bool, prefixing: Prefixing, user_first: bool, dec
     if decoys {
         a_comps.push(decoy);
     }
+    // the two carriers of ONE name and DIFFERENT kinds (a type and a global element) in either order
+    let carriers = if elem_first { [elem_a, type_a] } else { [type_a, elem_a] };
     if user_first {
         a_comps.push(user);
-        a_comps.extend([type_a, elem_a]);
+        a_comps.extend(carriers);
     } else {
-        a_comps.extend([type_a, elem_a]);
+        a_comps.extend(carriers);
         a_comps.push(user);
     }
     s.files[0].comps = a_comps;
@@ -93,20 +111,20 @@ fn xsd_states() -> Vec<(State, Vec<(&'static str, String)>)> {
     let mut out = vec![];
     for kind in [Kind::Type, Kind::Base, Kind::Ref] {
         for target_b in [false, true] {
-            for prefixing in [Prefixing::Own, Prefixing::TnsClash, Prefixing::Default, Prefixing::DefaultIsImported] {
-                if prefixing == Prefixing::Default && target_b {
-                    // B is reached through its prefix while A is the default namespace: keep (mixed)
-                }
+            for prefixing in [Prefixing::Own, Prefixing::TnsClash, Prefixing::Default, Prefixing::DefaultIsImported, Prefixing::SwappedAbbreviations] {
                 for user_first in [false, true] {
-                    for decoys in [false, true] {
-                        let set = build(kind, target_b, prefixing, user_first, decoys);
-                        let label = format!("{kind:?} reference to Thing in {} via {prefixing:?} prefixing, user declared {}{}", if target_b { "B (imported file)" } else { "A (same file)" }, if user_first { "before" } else { "after" }, if decoys { ", decoys present" } else { "" });
+                    for (decoys, chain, elem_first, idiom) in [(false, false, false, false), (true, false, false, false), (false, true, false, false), (true, true, false, false), (false, false, true, false), (true, true, true, false), (false, false, true, true), (false, false, false, true), (true, true, true, true)] {
+                        let set = build(kind, target_b, prefixing, user_first, decoys, chain, elem_first, idiom);
+                        let label = format!("{kind:?} reference to Thing in {} via {prefixing:?} prefixing, user declared {}{}{}", if target_b { "B (imported file)" } else { "A (same file)" }, if user_first { "before" } else { "after" }, if decoys { ", decoys present" } else { "" }, if chain { ", A's Thing built on B's Thing" } else { "" }.to_string() + if elem_first { ", element Thing declared before type Thing" } else { "" } + if idiom { ", element Thing is of type Thing" } else { "" });
                         let ctx = vec![
                             ("reference.kind", format!("{kind:?}").to_lowercase()),
                             ("reference.target", if target_b { "imported-namespace".into() } else { "own-namespace".to_string() }),
                             ("reference.prefixing", format!("{prefixing:?}")),
                             ("reference.order", if user_first { "use-before-declaration".into() } else { "declaration-first".to_string() }),
                             ("decoys", decoys.to_string()),
+                            ("same_name_chain", chain.to_string()),
+                            ("element_is_instance_of_same_named_type", idiom.to_string()),
+                            ("carrier_order", if elem_first { "element-before-type".into() } else { "type-before-element".to_string() }),
                         ];
                         out.push((State { label, depth: 1, set }, ctx));
                     }
@@ -233,7 +251,7 @@ pub fn check(tier: &str) -> i32 {
     rep.set("traces_validated_against_impl", json!(n));
     rep.set("states_fully_conformant", json!(conformant));
     rep.set("exhaustive", json!(true));
-    rep.set("bound", json!("complete product: reference kind {type=, base=, ref=} x target namespace {own, imported} x prefixing {own prefixes, the prefix tns bound to different URIs in the two files, default namespace} x declaration order {before, after use} x decoys {absent, a local element and an attribute named Thing}; WSDL: part element= {WSDL's, imported namespace} x parts {explicit, absent} with message and part named Thing; the imported file also refers to its own Thing through its own prefix"));
+    rep.set("bound", json!("complete product: reference kind {type=, base=, ref=} x target namespace {own, imported} x prefixing {own prefixes, the prefix tns bound to different URIs in the two files, default namespace, default namespace = imported namespace, each prefix spelling the other namespace's generated abbreviation} x declaration order {before, after use} x decoys {absent, a local element and an attribute named Thing} x {type Thing before element Thing, element first} x {element Thing of an anonymous type, element Thing of type Thing} x {A's Thing carriers independent, built on B's Thing carriers (same local name along the chain)}; WSDL: part element= {WSDL's, imported namespace} x parts {explicit, absent} with message and part named Thing; the imported file also refers to its own Thing through its own prefix"));
     let _ = tier;
     rep.assume("a carrier is identified by the namespace its struct declares and its unique marker member");
     rep.finish()
